@@ -29,7 +29,7 @@ def all_harnesses():
         txt = open(os.path.join(src, f)).read()
         macros, plain = _macro_bodies(txt)
         # macro-stamped modules: fam!(A, [B,] ...) -> module named by the first (or second, if it is an identifier) argument
-        for m in re.finditer(r"^(\w+)!\((\w+),(?: (\w+),)?[^\n]*\);\s*(?://[^\n]*)?$", plain, re.M):
+        for m in re.finditer(r"^(\w+)!\((\w+)(?:, (\w+))?(?:,[^\n]*)?\);\s*(?://[^\n]*)?$", plain, re.M):
             fam, shape = m.group(1), m.group(2)
             if m.group(3) and not m.group(3).isdigit():
                 shape = m.group(3)
